@@ -130,7 +130,8 @@ pub struct ServiceHarness {
     manager: TransportManager,
     handle: TransportHandle,
     names: Vec<ProtocolName>,
-    services: Vec<TransportService>,
+    /// `None`: the user dropped the protocol (see [`Self::drop_protocol`]).
+    services: Vec<Option<TransportService>>,
     conns: HashMap<usize, Conn>,
     /// Only used for its senders towards the services.
     spare: ProtocolSet,
@@ -171,13 +172,13 @@ impl ServiceHarness {
             .iter()
             .zip(keep_alive)
             .map(|(name, yes)| {
-                manager.register_protocol(
+                Some(manager.register_protocol(
                     name.clone(),
                     Vec::new(),
                     ProtocolCodec::UnsignedVarint(None),
                     KEEP_ALIVE,
                     if *yes { SubstreamKeepAlive::Yes } else { SubstreamKeepAlive::No },
-                )
+                ))
             })
             .collect();
         let handle = manager.transport_handle(Arc::new(DefaultExecutor));
@@ -192,7 +193,7 @@ impl ServiceHarness {
 
     /// Number of events (filler not counted) waiting in the inbox of service `q`.
     pub fn inbox_len(&self, q: usize) -> usize {
-        self.services[q].verif_inbox_len() - self.filler[q]
+        self.services[q].as_ref().map(|service| service.verif_inbox_len() - self.filler[q]).unwrap_or(0)
     }
 
     /// Filler events sitting in the inbox of service `q`.
@@ -247,9 +248,18 @@ impl ServiceHarness {
     }
 
     /// A transport accepted connection `cid` with `peer`: build its `ProtocolSet` the way
-    /// transports do and announce it to the protocols. `Err` carries the error text; `None`
-    /// inside means the call would block (an inbox is full).
-    pub fn establish(&mut self, peer: PeerId, cid: usize, listener: bool, address: Multiaddr) -> Result<(), String> {
+    /// transports do and announce it to the protocols (the future `Transport::accept` returns).
+    /// With `full = Some(q)` the inbox of live protocol `q` is first filled to its capacity, so that
+    /// the send to `q` is still pending when the others have completed or failed; the call then
+    /// stays suspended ([`Delivery::Blocked`], see [`Self::deliver`]) until `q` has room.
+    pub fn establish(
+        &mut self,
+        peer: PeerId,
+        cid: usize,
+        listener: bool,
+        address: Multiaddr,
+        full: Option<usize>,
+    ) -> Result<Delivery, String> {
         if self.conns.contains_key(&cid) {
             return Err("verif: connection id in use".into());
         }
@@ -259,14 +269,28 @@ impl ServiceHarness {
         } else {
             Endpoint::dialer(address, connection_id)
         };
+        if let Some(q) = full {
+            self.fill(q);
+        }
         let mut set = self.handle.protocol_set(connection_id);
-        let result = match block(set.report_connection_established(peer, endpoint)) {
-            Some(Ok(())) => Ok(()),
-            Some(Err(error)) => Err(format!("{error:?}")),
-            None => Err("blocked".into()),
-        };
-        self.conns.insert(cid, Conn { peer, set: Some(set), pending: Vec::new(), inflight: None });
-        result
+        self.conns.insert(cid, Conn { peer, set: None, pending: Vec::new(), inflight: None });
+        let future: Inflight = Box::pin(async move {
+            let result = set.report_connection_established(peer, endpoint).await.map_err(|e| format!("{e:?}"));
+            (set, result)
+        });
+        Ok(self.start(cid, future))
+    }
+
+    /// The user dropped protocol `q`: its `TransportService` (inbox, connection handles) is gone.
+    /// `ProtocolSet`s keep their sender towards it, as the snapshot real transports hold does.
+    pub fn drop_protocol(&mut self, q: usize) -> bool {
+        self.filler[q] = 0;
+        self.services[q].take().is_some()
+    }
+
+    /// Protocol `q` has not been dropped.
+    pub fn is_live(&self, q: usize) -> bool {
+        self.services[q].is_some()
     }
 
     fn drain_manager(&mut self) -> Vec<(PeerId, usize)> {
@@ -317,7 +341,7 @@ impl ServiceHarness {
                     let mut result = None;
                     // take the filler out through the real service, completing the call on the way
                     while report.filler < filled {
-                        match self.services[q].poll_next_unpin(&mut cx) {
+                        match self.services[q].as_mut().expect("verif: live protocol").poll_next_unpin(&mut cx) {
                             Poll::Ready(Some(TransportEvent::DialFailure { .. })) => report.filler += 1,
                             other => panic!("verif: filler expected, got {other:?}"),
                         }
@@ -341,7 +365,7 @@ impl ServiceHarness {
             if let Some(q) = clog {
                 // not blocked (inbox was not full after all): just remove the filler
                 while report.filler < filled {
-                    match self.services[q].poll_next_unpin(&mut cx) {
+                    match self.services[q].as_mut().expect("verif: live protocol").poll_next_unpin(&mut cx) {
                         Poll::Ready(Some(TransportEvent::DialFailure { .. })) => report.filler += 1,
                         other => panic!("verif: filler expected, got {other:?}"),
                     }
@@ -478,6 +502,8 @@ impl ServiceHarness {
     /// `TransportService::open_substream`.
     pub fn open_substream(&mut self, q: usize, peer: PeerId) -> Result<usize, String> {
         self.services[q]
+            .as_mut()
+            .ok_or("verif: protocol dropped")?
             .open_substream(peer)
             .map(|id| id.verif_as_usize())
             .map_err(|error| match error {
@@ -490,7 +516,7 @@ impl ServiceHarness {
 
     /// `TransportService::force_close`.
     pub fn force_close(&mut self, q: usize, peer: PeerId) -> Result<(), String> {
-        self.services[q].force_close(peer).map_err(|error| format!("{error:?}"))
+        self.services[q].as_mut().ok_or("verif: protocol dropped")?.force_close(peer).map_err(|error| format!("{error:?}"))
     }
 
     /// Poll service `q` the way an executor would: once, and again as long as the service woke
@@ -501,7 +527,7 @@ impl ServiceHarness {
         let mut cx = Context::from_waker(&waker);
         for _ in 0..10_000 {
             flag.0.store(false, Ordering::SeqCst);
-            match self.services[q].poll_next_unpin(&mut cx) {
+            match self.services[q].as_mut().expect("verif: live protocol").poll_next_unpin(&mut cx) {
                 Poll::Pending =>
                     if !flag.0.load(Ordering::SeqCst) {
                         return SvcEvent::Pending;
@@ -546,22 +572,22 @@ impl ServiceHarness {
     /// `KeepAliveTracker::verif_expire`); the downgrade happens in the next `poll_service(q)` that
     /// finds the inbox empty. Returns `false` if the connection is not tracked.
     pub fn expire_keep_alive(&mut self, q: usize, peer: PeerId, cid: usize) -> bool {
-        self.services[q].verif_expire_keep_alive(peer, cid)
+        self.services[q].as_mut().map(|service| service.verif_expire_keep_alive(peer, cid)).unwrap_or(false)
     }
 
     /// `(primary id, primary active, Some((secondary id, secondary active)))` of `peer` at `q`.
     pub fn connections(&self, q: usize, peer: &PeerId) -> Option<(usize, bool, Option<(usize, bool)>)> {
-        self.services[q].verif_connections(peer)
+        self.services[q].as_ref().and_then(|service| service.verif_connections(peer))
     }
 
     /// Connections tracked by the keep-alive tracker of service `q`.
     pub fn keep_alive_tracked(&self, q: usize) -> Vec<(PeerId, usize)> {
-        self.services[q].verif_keep_alive_tracked()
+        self.services[q].as_ref().map(|service| service.verif_keep_alive_tracked()).unwrap_or_default()
     }
 
     /// Next value of the shared substream id allocator.
     pub fn next_substream_id(&self) -> usize {
-        self.services[0].verif_next_substream_id()
+        self.services.iter().flatten().next().map(|service| service.verif_next_substream_id()).unwrap_or(0)
     }
 
     /// Number of services.
